@@ -275,17 +275,27 @@ def check(ctx, run):
     run.ob("R5", "getNodeFromMemoryPointer(block, size) is where the allocation path placed the inline record, for every size folded", gn.site, badg is None, witness=badg or "20 sizes", what=badg or "")
     # failure paths
     for f, realloc in ((am, False),):
+        why1 = why2 = ""
+        seq, seq2 = [], []
         try:
             r, seq, heap = fold_layout(f, 13, 0, realloc, mem_result=0)
             ok1 = r == 0 and not [k for k, a_ in seq if k in ("add", "guard")] and not heap
+        except Unknown as u:
+            if "null dereference" not in str(u):
+                run.broke("C05.R5: failure path of %s cannot be folded: %s" % (f.qn, u))
+                continue
+            ok1, why1 = False, "the NULL block is written through: %s" % u
+        try:
             r2, seq2, heap2 = fold_layout(f, 13, 1, realloc, node_result=0)
             fr = [a_ for k, a_ in seq2 if k == "free"]
             ok2 = r2 == 0 and not [k for k, a_ in seq2 if k in ("add", "guard")] and len(fr) == 1 and fr[0][:2] == (M, 13) and not heap2
         except Unknown as u:
-            run.broke("C05.R5: failure path of %s cannot be folded: %s" % (f.qn, u))
-            continue
-        run.ob("R5", "%s folded with a failing allocator: NULL is returned, nothing is written or entered" % f.name, f.site, ok1, witness=seq)
-        run.ob("R5", "%s folded with a failing record allocation (separate layout): the block is released with its size, NULL is returned, nothing is written through the NULL record" % f.name, f.site, ok2, witness=[(k, a_[:2]) for k, a_ in seq2])
+            if "null dereference" not in str(u):
+                run.broke("C05.R5: failure path of %s cannot be folded: %s" % (f.qn, u))
+                continue
+            ok2, why2 = False, "the record is initialised through the NULL pointer allocMemoryLeakNode returned: %s" % u
+        run.ob("R5", "%s folded with a failing allocator: NULL is returned, nothing is written or entered" % f.name, f.site, ok1, witness=seq, what=why1)
+        run.ob("R5", "%s folded with a failing record allocation (separate layout): the block is released with its size, NULL is returned, nothing is written through the NULL record" % f.name, f.site, ok2, witness=[(k, a_[:2]) for k, a_ in seq2], what=why2)
 
     # ---------------- R2 ----------------------------------------------------
     targets = [("strdup_alloc", ("cpputest_malloc_location",)), ("cpputest_calloc_location", ("cpputest_malloc_location",)),
